@@ -36,6 +36,11 @@ def run(ctx):
         classes[c] += 1
         if c != runner.outcome_class(m):
             corr_broken.append(dict(request=[req[0], req[1], req[2]], impl=i[:300], model=m[:300]))
+        if c == 'timeout':
+            # wall-clock budgets can fire on a loaded machine: confirm alone with a generous budget
+            again = canon.norm_outcome(canon.run(runner.get_bashlex(), req[0], req[2], timeout=300, **(req[1] if req[0] != 'split' else {})))
+            if runner.outcome_class(again) != 'timeout':
+                classes['timeout-not-confirmed'] += 1; c = runner.outcome_class(again); i = again
         if c.startswith('foreign:') or c in ('timeout', 'other'):
             bad(req, i, c)
         elif i.startswith('OK ') or i.startswith('ONE '):
